@@ -382,6 +382,20 @@ VARIANTS = [
     brk('B-disconnect-drops-voter', ['C10', 'C18'], 'R-owners-membership', (S, "    def __onNodeDisconnected(self, node):\n", "    def __onNodeDisconnected(self, node):\n        self.__otherNodes.discard(node)\n")),
     brk('B-sender-refreshes-response-time', ['C20'], 'R-owners-liveness', (S, "    def __sendAppendEntries(self):\n        self.__newAppendEntriesTime = monotonicTime() + self.__conf.appendEntriesPeriod\n", "    def __sendAppendEntries(self):\n        self.__newAppendEntriesTime = monotonicTime() + self.__conf.appendEntriesPeriod\n        for node_ in self.__connectedNodes:\n            self.__lastResponseTime[node_] = monotonicTime()\n")),
     brk('B-compaction-forgets-waiters', ['C02'], 'R-owners-callbacks', (S, "            self.__lastSerializedEntry = serializeID\n", "            self.__lastSerializedEntry = serializeID\n            self.__commandsWaitingCommit.pop(serializeID, None)\n")),
+    brk('B-publish-cache-unprimed', ['C08'], 'R-offset-coherent', (J, "        self.__metaSaved = True\n        currentOffset = FIRST_RECORD_OFFSET\n", "        self.__metaSaved = True\n        self.__published = FIRST_RECORD_OFFSET\n        currentOffset = FIRST_RECORD_OFFSET\n"),
+        (J, "    def __setLastRecordOffset(self, offset):\n", "    def __setLastRecordOffset(self, offset):\n        if offset == self.__published:\n            return\n        self.__published = offset\n")),
+    keep('P-publish-cache-primed', (J, "        lastRecordOffset = self.__getLastRecordOffset()\n", "        lastRecordOffset = self.__getLastRecordOffset()\n        self.__published = lastRecordOffset\n"),
+         (J, "    def __setLastRecordOffset(self, offset):\n", "    def __setLastRecordOffset(self, offset):\n        if offset == self.__published:\n            return\n        self.__published = offset\n")),
+    brk('B-shared-tmp-through-attr', ['C09'], 'R-dump-atomic', (SER, "        self.__fileName = fileName\n", "        self.__fileName = fileName\n        self.__tmpName = None if fileName is None else fileName + '.tmp'\n"),
+        (SER, "            tmpFile = self.__fileName + '.tmp'\n", "            tmpFile = self.__tmpName\n"), (SER, "        tmpFile = self.__fileName + '.1.tmp'\n", "        tmpFile = self.__tmpName\n")),
+    brk('B-snapshot-members-without-self', ['C09', 'C10'], 'R-payload-complete', (S, "cluster = self.__otherNodes | {self.__selfNode}", "cluster = self.__otherNodes")),
+    brk('B-restore-only-discards', ['C10'], 'R-rollback-paired', (S, "        self.__otherNodes = newNodes\n", "        for node_ in nodesToRemove:\n            self.__otherNodes.discard(node_)\n")),
+    brk('B-read-gated-on-buffer', ['C11', 'C13'], 'R-read-ungated', (T, "        while self.__processRead():\n            pass\n", "        while len(self.__readBuffer) < self.__recvBufferSize and self.__processRead():\n            pass\n")),
+    keep('P-read-loop-counted', (T, "        while self.__processRead():\n            pass\n", "        reads = 0\n        while self.__processRead():\n            reads += 1\n")),
+    brk('B-delivery-loop-truthiness', ['C13'], 'R-consume-once', (T, "                if message is None:\n                    break\n", "                if not message:\n                    break\n")),
+    brk('B-key-unpack-outside-try', ['C13'], 'R-decode-contained', (T, "            if self.recvRandKey:\n                randKey, message = message\n                assert randKey == self.recvRandKey\n", "            pass\n"),
+        (T, "        self.__readBuffer = self.__readBuffer[4 + l:]\n", "        if self.recvRandKey:\n            randKey, message = message\n            if randKey != self.recvRandKey:\n                self.disconnect()\n                return None\n        self.__readBuffer = self.__readBuffer[4 + l:]\n")),
+    brk('B-consumer-alias-enumerated', ['C17'], 'R-enumeration-siblings', (S, "                               getattr(getattr(consumer, m), 'replicated', False) and \\\n                               m != getattr(getattr(consumer, m), 'origName')]", "                               getattr(getattr(consumer, m), 'replicated', False)]")),
     keep('P-rename-transport-privates', (TR, '_shouldConnect', '_mustDial'), (TR, '_onIncomingMessageReceived', '_onHandshake'), (TR, '_connectIfNecessarySingle', '_dialOne'),
          (TR, '_onDisconnected', '_onConnLost')),
     keep('P-checkserializing-hoist-reset', (SER, "                serializeState = SERIALIZER_STATE.SUCCESS if self.__pid == -1 else SERIALIZER_STATE.FAILED\n                self.__pid = 0\n", "                finished = self.__pid\n                self.__pid = 0\n                serializeState = SERIALIZER_STATE.SUCCESS if finished == -1 else SERIALIZER_STATE.FAILED\n")),
